@@ -3,8 +3,9 @@
 use std::convert::TryFrom;
 
 use coap_lite::{
-    CoapOption, ContentFormat, Header, MessageClass, MessageType,
-    ObserveOption, Packet, RequestType, ResponseType,
+    CoapOption, CoapRequest, CoapResponse, ContentFormat, Header,
+    MessageClass, MessageType, ObserveOption, Packet, RequestType,
+    ResponseType,
 };
 use serde::{Deserialize, Serialize};
 use serde_json::json;
@@ -314,6 +315,67 @@ pub fn check(_ctx: &Ctx, c: &Num, acc: &mut Acc) -> Result<(), Fail> {
             acc.nontrivial_enum();
             acc.sample("named-code", || json!({"index": n}));
         }
+        "code-getter" => {
+            // the second number -> name tables behind the request / response
+            // API (CoapRequest::get_method, CoapResponse::get_status)
+            let b = n as u8;
+            let mut req: CoapRequest<u8> = CoapRequest::new();
+            req.message.header.code = MessageClass::from(b);
+            let want_m = reg::methods()
+                .into_iter()
+                .find(|t| t.1 == b)
+                .map(|t| t.0)
+                .unwrap_or(RequestType::UnKnown);
+            ensure!(
+                *req.get_method() == want_m,
+                "c05-get-method",
+                "code byte {b:#04x}: CoapRequest::get_method() = {:?}, registry says {want_m:?}",
+                req.get_method()
+            );
+            let want_s = reg::statuses()
+                .into_iter()
+                .find(|t| t.1 == b)
+                .map(|t| t.0)
+                .unwrap_or(ResponseType::UnKnown);
+            for parsed in [false, true] {
+                let message = if parsed {
+                    match catch(|| Packet::from_bytes(&[0x60, b, 0x12, 0x34])) {
+                        Ok(Ok(p)) => p,
+                        other => fail!("c05-header-decode-panic", "four-byte message with code {b:#04x} did not parse: {:?}", other.map(|r| r.map(|_| ()))),
+                    }
+                } else {
+                    req.message.clone()
+                };
+                let resp = CoapResponse { message };
+                let got = *resp.get_status();
+                ensure!(
+                    got == want_s,
+                    "c05-get-status",
+                    "code byte {b:#04x} ({}.{:02}){}: CoapResponse::get_status() = {got:?}, registry says {want_s:?}",
+                    b >> 5,
+                    b & 31,
+                    if parsed { " from the wire" } else { "" }
+                );
+                if want_s != ResponseType::UnKnown {
+                    // number -> name -> number
+                    ensure!(
+                        u8::from(MessageClass::Response(got)) == b,
+                        "c05-get-status",
+                        "code byte {b:#04x} -> {got:?} -> {:#04x}",
+                        u8::from(MessageClass::Response(got))
+                    );
+                }
+            }
+            let named: Vec<u32> = reg::methods()
+                .iter()
+                .map(|m| m.1 as u32)
+                .chain(reg::statuses().iter().map(|s| s.1 as u32))
+                .collect();
+            if near_named(n, &named) {
+                acc.nontrivial_enum();
+                acc.sample("code-getter", || json!({"byte": b, "method": format!("{want_m:?}"), "status": format!("{want_s:?}")}));
+            }
+        }
         "header-byte" => {
             let b = n as u8;
             let ver = b >> 6;
@@ -426,6 +488,7 @@ pub fn run(ctx: &Ctx, rep: &mut Report) {
         ("content-format", 65536 + 8),
         ("code", 256),
         ("named-code", (reg::methods().len() + reg::statuses().len() + 1) as u32),
+        ("code-getter", 256),
         ("header-byte", 256),
         ("type", 4),
         ("observe", 65536),
